@@ -318,7 +318,8 @@ func c09(args []string) error {
 		"http://example.com:99999/", "http://1.2.3.4/", "http://0x7f.1/", "http://2130706433/", "http://127.1/", "http://example.com./", "http://.example.com/",
 		"http://exa mple.com/", "http://example.com/\t\n", "\thttp://example.com/\n", "http://example.com/?b=2&a=1&b=1&a=2", "http://example.com/?%61=%62&a=b+c",
 		"http://example.com/?x=1#?y=2", "?only=query", "#onlyfrag", "../up", "./here", "/abs/path?x=1", "a/b/c", "http://example.com/a%2Fb/c%2fd", "http://example.com/%7Euser",
-		"http://xn--bcher-kva.example/", "http://example.com/" + strings.Repeat("a/", 300), "http://" + strings.Repeat("a.", 100) + "com/"}
+		"http://xn--bcher-kva.example/", "http://127.0.0.1:8080/admin", "https://127.0.0.1:8443/x?a=1", "http://user:pw@127.0.0.1:2019/cfg", "http://localhost:8080/", "http://LOCALHOST:80/a",
+		"//localhost:9/x", "//127.0.0.1:81/y", "http://intranet:8080/", "http://printer:631/q", "https://u@localhost/", "http://example.com/" + strings.Repeat("a/", 300), "http://" + strings.Repeat("a.", 100) + "com/"}
 	parents := []string{"", "http://example.com/dir/page.html?x=1", "https://sub.example.org:8443/a/b/"}
 	for _, s := range nasties {
 		for _, p := range parents {
